@@ -12,7 +12,8 @@ from asphalt.core import Context, ResourceNotFound, start_component  # noqa: E40
 T, OTHER = RT[0], RT[1]
 MATCH_KINDS = ["add_resource(T,'special')", "add_resource_factory(T,'special')", "add_resource([OTHER,T],'special')",
                "alias 'p/special': add_resource(T) with the default name in start()", "falsy value {} as (T,'special')",
-               "add_resource_factory(T,'special') with an ASYNC factory"]
+               "add_resource_factory(T,'special') with an ASYNC factory",
+               "add_resource_factory(T,'special') with a factory returning an awaitable OBJECT (not a coroutine)"]
 FILLERS = ["same name, other type", "same type, other name"]
 
 
@@ -35,6 +36,19 @@ def publisher_steps(env, vals, match_kind, pos, fillers, cps):
                     await anyio.sleep(0)
                     return v
                 steps.append(("fac", "MATCH", acb, "special", [T]))
+            elif match_kind == 6:
+                class _Handle:
+                    def __init__(self, v):
+                        self.v = v
+
+                    def __await__(self):
+                        yield from anyio.sleep(0).__await__()
+                        return self.v
+
+                def hcb(v=v):
+                    env.ev("factory_called")
+                    return _Handle(v)
+                steps.append(("fac", "MATCH", hcb, "special", [T]))
             elif match_kind == 2:
                 steps.append(("pub", "MATCH", v, "special", [OTHER, T]))
             elif match_kind == 3:
@@ -61,13 +75,14 @@ def sched_cfg(tier):
 
 def sched_params(tier):
     D, L = sched_cfg(tier)
-    ps = [P("mk", 0, 5), P("pos", 0, 2), P("cps", 0, 1), P("wphase", 0, 1), P("pphase", 0, 1), P("f0", 0, 1)]
+    ps = [P("mk", 0, 6), P("pos", 0, 2), P("cps", 0, 1), P("wphase", 0, 1), P("pphase", 0, 1), P("f0", 0, 1)]
     if tier != "quick":
         ps += [P("wdelay", 0, 2), P("f1", 0, 1)]
     for j in range(D):
         ps += [P(f"gap{j}", 0, L), P(f"arm{j}", 0, 4)]
-    ps.append(P("slow", 0, 1))
-    ps.append(P("refused", 0, 1))
+    ps.append(P("env", 0, 3) if tier == "quick" else P("slow", 0, 1))
+    if tier != "quick":
+        ps.append(P("refused", 0, 2))
     return ps
 
 
@@ -75,19 +90,35 @@ def sched_params(tier):
 def sched_fn(a, tier):
     D, L = sched_cfg(tier)
     quick = tier == "quick"
-    mk, pos = pick(a["mk"], 6), pick(a["pos"], 3)
+    mk, pos = pick(a["mk"], 7), pick(a["pos"], 3)
     cps, wphase = pick(a["cps"], 2), pick(a["wphase"], 2)
     pphase = 1 if mk == 3 else pick(a["pphase"], 2)  # default-name remapping happens in start() only
     f0 = pick(a["f0"], 2)
     wdelay = 1 if quick else pick(a["wdelay"], 3)
     fillers = [f0, 1 - f0] if quick else [f0, pick(a["f1"], 2)]
-    slow = pick(a["slow"], 2)  # an application-level listener with a 1-slot queue that subscribed first and never reads
+    # slow: an application-level listener with a 1-slot queue that subscribed first and never reads; refused: see below.
+    # quick tier: one of {neither, slow listener, refused publication first, private-context factory first}; thorough: the full product
+    if quick:
+        envk = pick(a["env"], 4)
+        slow, refused = int(envk == 1), {2: 1, 3: 2}.get(envk, 0)
+    else:
+        slow, refused = pick(a["slow"], 2), pick(a["refused"], 3)
     tape = DeviationTape([(a[f"gap{j}"], a[f"arm{j}"]) for j in range(D)], L)
     env = Env()
     vals = {"match": {} if mk == 4 else object()}
     steps = publisher_steps(env, vals, mk, pos, fillers, cps)
-    refused = pick(a["refused"], 2)
-    if refused:
+    if refused == 2:
+        # first, in a private context of its own, the publisher registers a PRIVATE factory for the very key the waiters want - and leaves that context
+        def private_ctx(env_, node):
+            async def go():
+                async with Context() as private:
+                    private.add_resource_factory(lambda: vals.setdefault("private", object()), "special", types=[T])
+                env.ev("private_context_left")
+
+            return go()
+
+        steps = [("call", private_ctx)] + ([("cp",)] if cps else []) + steps
+    elif refused:
         # first a publication that is REFUSED: (T,'special') together with a type whose 'special' is already taken
         steps = [("pub", "taken", object(), "special", [RT[5]]), ("pubfail", "rejected", object(), "special", [T, RT[5]])] + ([("cp",)] if cps else []) + steps
     probe = {}
@@ -143,8 +174,8 @@ def sched_fn(a, tier):
     summary = {"match": MATCH_KINDS[mk], "match_position": pos, "fillers": [FILLERS[f] for f in fillers], "checkpoints_between": bool(cps),
                "waiters_in": ["prepare", "start"][wphase], "waiter_checkpoints_before_request": wdelay,
                "publisher_in": ["prepare", "start"][pphase], "slow_first_subscriber": bool(slow), "schedule": tape.taken,
-               "publisher_first_attempts_a_publication_that_is_refused": bool(refused)}
-    if refused and not env.has("refused", 2, "rejected") and env.has("pub", 2, "rejected"):
+               "publisher_first": ["-", "attempts a publication that is refused", "registers a private factory for the same key in a context of its own and leaves it"][refused]}
+    if refused == 1 and not env.has("refused", 2, "rejected") and env.has("pub", 2, "rejected"):
         return FAIL("conflicting-publication-accepted", env.log, summary)
     if exc is not None:
         lost = isinstance(exc, (TimeoutError, symsched.Deadlock))
@@ -158,7 +189,7 @@ def sched_fn(a, tier):
         got = env.values[(waiter, "w")]
         if got is not vals["match"]:
             return FAIL(f"wrong-object:{MATCH_KINDS[mk]}", f"waiter {waiter} got {got!r}", summary)
-    if mk in (1, 5) and env.count("factory_called") != 1:
+    if mk in (1, 5, 6) and env.count("factory_called") != 1:
         return FAIL("factory-product-not-shared", env.count("factory_called"), summary)
     if out["final"] is not vals["match"]:
         return FAIL("final-lookup-differs", "", summary)
@@ -182,7 +213,7 @@ SCHED = Harness(
     title="two waiters, a publisher issuing matching and non-matching publications, a noise publisher; all schedule prefixes",
     bound_text=lambda tier: "waiters for (T,'special') in prepare or start after " + ("1 checkpoint" if tier == "quick" else "0-2 checkpoints") + "; publisher (alias 'p/special') issues 3 publications, "
     "one of them matching (" + "; ".join(MATCH_KINDS) + ") at position 0-2, the others non-matching (" + "; ".join(FILLERS)
-    + "), with/without checkpoints between, optionally preceded by a publication of (T,'special') together with an already taken type that is refused with ResourceConflict; a second publisher with alias 'q/other' publishes T under its remapped default name and a third, plain-aliased one under 'default'; optionally an application-level listener with a 1-slot queue that subscribed first and never reads; "
+    + "), with/without checkpoints between, optionally preceded by a publication of (T,'special') together with an already taken type that is refused with ResourceConflict, or by a private factory for (T,'special') registered in a short-lived context of the publisher's own; a second publisher with alias 'q/other' publishes T under its remapped default name and a third, plain-aliased one under 'default'; optionally an application-level listener with a 1-slot queue that subscribed first and never reads; "
     + ("FIFO schedule with ONE deviation: at any one of the first 10 decision points any other runnable task may be picked"
        if tier == "quick" else "FIFO schedule with ONE deviation anywhere in the first 16 decision points, any other runnable task, and all parameter combinations"),
     oracle="startup completes (no TimeoutError/deadlock = no lost wake-up); each waiter returns only after the matching publication and with "
